@@ -140,6 +140,7 @@ inductive Builtin
   | capitalize | lower | upper | replace | split | zip        -- `s.lower()`, `s.upper()`, `s.replace(a, b)`, `s.split(sep)`, `zip(a, b)`
   | isupper                                     -- `s.isupper()` (ASCII letters; the core applies it to one character)
   | jsonDumps | jsonLoads                       -- `json.dumps(v, indent=None)` / `json.loads(text)` (Model/Json.lean)
+  | all | any                                   -- `all(xs)` / `any(xs)` over a list already evaluated
 deriving Repr, DecidableEq
 inductive MutOp | append | add | remove
 deriving Repr, DecidableEq
@@ -190,6 +191,7 @@ inductive Stmt where
   | mut (t : Target) (op : MutOp) (e : Expr)                   -- `t.append(e)` / `t.add(e)` / `t.remove(e)`
   | callMut (t : Target) (m : Id) (args : List Expr)           -- `t.m(args)` as a statement: the receiver is written back
   | callMutStatic (c : Id) (m : Id) (args : List Expr)         -- `super().m(args)` as a statement: `self` is written back
+  | callMutRet (x : Target) (t : Target) (m : Id) (args : List Expr)   -- `x = t.m(args)`: the receiver is written back, THEN the result is assigned
   | expr (e : Expr)
   | ite (c : Expr) (t e : List Stmt)
   | while (c : Expr) (body : List Stmt)
@@ -570,6 +572,11 @@ def isPrefixC : List Char → List Char → Bool
   | _ :: _, [] => false
   | a :: as, b :: bs => a == b && isPrefixC as bs
 
+/-- `a in s` for strings -/
+def isInfixC (a : List Char) : List Char → Bool
+  | [] => a.isEmpty
+  | c :: r => isPrefixC a (c :: r) || isInfixC a r
+
 /-- `s.replace(a, b)` for non-empty `a`: left to right, non-overlapping -/
 def replaceAll (a b : List Char) : Nat → List Char → List Char
   | 0, s => s
@@ -691,6 +698,12 @@ def builtinF (r : Rec) (P : Program) (b : Builtin) (vs : List Val) : R Val :=
   | .jsonLoads, [.str t] => match jsonLoad t with
     | some j => pure (jsonToVal j)
     | none => throw (.exc K.ValueError)                    -- json.JSONDecodeError is a ValueError
+  | .all, [v] => match iterItems P v with
+    | some xs => pure (.bool (xs.all truthy))
+    | none => throw (.exc K.TypeError)
+  | .any, [v] => match iterItems P v with
+    | some xs => pure (.bool (xs.any truthy))
+    | none => throw (.exc K.TypeError)
   | .isinstance, [v, .cls c] =>
     match classOf? v with
     | some c' => pure (.bool (P.isSubclass classDepth c' c))
@@ -708,6 +721,9 @@ def cmpF (r : Rec) (P : Program) (op : CmpOp) (x y : Val) : R Val :=
     match y with
     | .tuple ys => pure (.bool (containsVal ys x != neg))
     | .dict kvs => pure (.bool ((lookupD kvs x).isSome != neg))
+    | .str t => match x with
+      | .str s => pure (.bool (isInfixC s t != neg))          -- substring test
+      | _ => throw (.exc K.TypeError)
     | _ => throw (.exc K.TypeError)
   | _ => do pure (.bool (← compareF r P op x y))
 
@@ -931,6 +947,11 @@ def execStmtF (r : Rec) (P : Program) (env : Env) (s : Stmt) : R (Env × Flow) :
   | .callMutStatic c m args => do
     let (_, x') ← callMethod r P c m (← mapR (r.eval env) args) (.exc K.AttributeError)
     pure (update env K.self x', .next)
+  | .callMutRet x t m args => do
+    let recv ← r.eval env t.toExpr
+    let (v, recv') ← methF r P recv m (← mapR (r.eval env) args)
+    let env1 ← assignToF r env t recv'
+    pure (← assignToF r env1 x v, .next)
   | .expr e => do let _ ← r.eval env e; pure (env, .next)
   | .ite c t e => do
     if truthy (← r.eval env c) then r.exec env t else r.exec env e
